@@ -1,2 +1,3 @@
 import TelProofs.Loop
 import TelProofs.Props.C08
+import TelProofs.Props.C03
